@@ -245,6 +245,19 @@ def run_case(ck, desc):
         full_tab = full_tab.assign(Rsw=4.0 + 0.002 * P, rho_w=62.4 + 0.0003 * P, temperature=200.0, Bw_lab=cols["Bw"] * 1.01)
         ck.count("tables_with_mobile_water_and_extra_lab_columns")
     refd = dict(zip(names, dens))
+    # the rel-perm table as the lab or the spreadsheet lists it: by increasing GAS saturation (So falling),
+    # shuffled, or two runs appended; the rows are the same rows (the harness's own look-ups sort a copy)
+    df_kr_sorted = pd.DataFrame(df_kr).sort_values("So").reset_index(drop=True)
+    how_kr = int(phi * 1e4) % 5
+    if how_kr == 1:
+        df_kr = pd.DataFrame(df_kr).sort_values("Sg").reset_index(drop=True)
+    elif how_kr == 2:
+        df_kr = pd.DataFrame(df_kr).sample(frac=1.0, random_state=int(phi * 1e6) % 1000)
+    elif how_kr == 3:
+        d_ = pd.DataFrame(df_kr).reset_index(drop=True)
+        df_kr = pd.concat([d_.iloc[1::2], d_.iloc[0::2]])
+    if how_kr in (1, 2, 3):
+        ck.count("rel_perm_tables_not_listed_by_increasing_So")
     ki = max(2, len(P) - 1 - int(desc["So_frac"][0] * (len(P) // 3)))
     with warnings.catch_warnings(), np.errstate(all="ignore"):
         warnings.simplefilter("ignore")
@@ -318,7 +331,7 @@ def run_case(ck, desc):
                 k_ = int(np.argmax(np.abs(alone_ - own_) / sc_))
                 ck.violation("equals-finite-difference-of-documented-storage", {"p": float(pn[k_]), "asked": "alone, on or beside a row", "got": float(alone_[k_]), "want": float(own_[k_]), "rel": e_}, desc)
     # total mobility follows the documented sum
-    kr_own = {k: (lambda s, k=k: np.interp(s, np.asarray(df_kr["So"]), np.asarray(df_kr[k]))) for k in ("kro", "krg", "krw")}
+    kr_own = {k: (lambda s, k=k: np.interp(s, np.asarray(df_kr_sorted["So"]), np.asarray(df_kr_sorted[k]))) for k in ("kro", "krg", "krw")}
     ro, rg, rw = dens
     lam_own = (
         ro * (own["Rv"](pe) * kr_own["krg"](Soe) / (own["mu_g"](pe) * own["Bg"](pe)) + kr_own["kro"](Soe) / (own["mu_o"](pe) * own["Bo"](pe)))
